@@ -118,6 +118,10 @@ def oracle(ctx, obs):
                 what = "first sample" if z == -1 else "last sample" if z == 1 else "piecewise-linear interpolation of the samples"
                 ctx.violation("S5", f"Apodization::Interpolate({rep['values']}).integration_constant({float(z)!r}) = {v!r}, expected the {what} {float(exp)!r}",
                               {"kind": "interpolate", "n": len(vals)}, rep)
+        elif k == "interp_panic":
+            vals = [fh(v) for v in o["values"]]
+            ctx.violation("S5", f"Apodization::Interpolate({vals}).integration_constant({fh(o['z'])!r}) panicked: {o['msg']}",
+                          {"kind": "interpolate_panic", "n": len(vals)}, {"values": vals, "z": fh(o["z"]), "msg": o["msg"]})
         elif k == "dom":
             oracle_dom(ctx, o)
         elif k == "dom_panic":
@@ -132,6 +136,8 @@ def oracle(ctx, obs):
         elif k == "cfg":
             ctx.seen(("cfg", json.dumps(o["ap"], sort_keys=True)), nontrivial=False)
             ok = o["cfg_kind"] == o["kind_str"] == o["back_kind"] == o["json_roundtrip_kind"] == o["ap"]["kind"] and fh(o["rel_err"]) <= 1e-15 and o["same_window"]
+            if o["ap"]["kind"] == "Gaussian" and (o.get("fwhm_um") is None or abs(fh(o["fwhm_um"]) - fh(o["ap"]["p"]) * 1e6) > 1e-9 * fh(o["ap"]["p"]) * 1e6):
+                ok = False
             if not ok:
                 ctx.violation("S5", f"apodization {ap_desc(o['ap'])} does not survive the config round trip (config kind {o['cfg_kind']}, back {o['back_kind']}, "
                               f"json {o['json_roundtrip_kind']}, relative parameter error {fh(o['rel_err'])!r})", {"kind": "config", "window": o["ap"]["kind"]},
